@@ -11,7 +11,11 @@ import (
 	"fmt"
 	"math/rand"
 	"os"
+	"runtime/debug"
+	"runtime/pprof"
 	"strconv"
+	"sync"
+	"sync/atomic"
 
 	"verifharness/sx"
 )
@@ -40,10 +44,66 @@ func safeRun(f family, c *sx.Node) (out *sx.Node) {
 	return f.run(c)
 }
 
+func safeGen(f family, r *rand.Rand, tier string) (out *sx.Node) {
+	defer func() {
+		if r := recover(); r != nil {
+			out = sx.Tag("GEN-PANIC", sx.Str(fmt.Sprint(r)))
+		}
+	}()
+	return f.gen(r, tier)
+}
+
+// parallel runs work(0..n-1) on a pool of goroutines (VERIF_WORKERS, default 12; 1 = serial).
+func parallel(n int, work func(i int)) {
+	workers := 12
+	if v, err := strconv.Atoi(os.Getenv("VERIF_WORKERS")); err == nil && v > 0 {
+		workers = v
+	}
+	if workers > n {
+		workers = n
+	}
+	if workers <= 1 {
+		for i := 0; i < n; i++ {
+			work(i)
+		}
+		return
+	}
+	var wg sync.WaitGroup
+	next := int64(-1)
+	for w := 0; w < workers; w++ {
+		wg.Add(1)
+		go func() {
+			defer wg.Done()
+			for {
+				i := int(atomic.AddInt64(&next, 1))
+				if i >= n {
+					return
+				}
+				work(i)
+			}
+		}()
+	}
+	wg.Wait()
+}
+
 func main() {
 	if len(os.Args) < 3 {
 		fmt.Fprintln(os.Stderr, "usage: verifharness gen|run <family> ...")
 		os.Exit(2)
+	}
+	gcp := 400 // the ANTLR runtime allocates heavily; trade memory for time
+	if v, err := strconv.Atoi(os.Getenv("VERIF_GOGC")); err == nil {
+		gcp = v
+	}
+	debug.SetGCPercent(gcp)
+	if pf := os.Getenv("VERIF_PPROF"); pf != "" {
+		fh, _ := os.Create(pf)
+		pprof.StartCPUProfile(fh)
+		defer pprof.StopCPUProfile()
+	}
+	if os.Args[1] == "text" {
+		printTexts()
+		return
 	}
 	f, ok := families[os.Args[2]]
 	if !ok {
@@ -60,23 +120,31 @@ func main() {
 		if len(os.Args) > 5 {
 			tier = os.Args[5]
 		}
-		for i := 0; i < n; i++ {
-			fmt.Fprintln(w, f.gen(caseRand(seed, i), tier).String())
+		out := make([]string, n)
+		parallel(n, func(i int) { out[i] = safeGen(f, caseRand(seed, i), tier).String() })
+		for _, l := range out {
+			fmt.Fprintln(w, l)
 		}
 	case "run":
 		sc := bufio.NewScanner(os.Stdin)
 		sc.Buffer(make([]byte, 1<<20), 1<<28)
+		lines := []string{}
 		for sc.Scan() {
-			line := sc.Text()
-			if line == "" {
-				continue
+			if line := sc.Text(); line != "" {
+				lines = append(lines, line)
 			}
-			c, err := sx.Parse(line)
+		}
+		out := make([]string, len(lines))
+		parallel(len(lines), func(i int) {
+			c, err := sx.Parse(lines[i])
 			if err != nil {
-				fmt.Fprintln(w, sx.Tag("BADCASE", sx.Str(err.Error())).String())
-				continue
+				out[i] = sx.Tag("BADCASE", sx.Str(err.Error())).String()
+				return
 			}
-			fmt.Fprintln(w, safeRun(f, c).String())
+			out[i] = safeRun(f, c).String()
+		})
+		for _, l := range out {
+			fmt.Fprintln(w, l)
 		}
 	case "norm":
 		sc := bufio.NewScanner(os.Stdin)
